@@ -37,4 +37,44 @@ Fixpoint qrun (d : list item) (h : list (qop * qobs * list item)) : bool :=
       b && list_eqb item_eqb d' dat && qrun d' t
   end.
 
-Definition check_pq (h : list (qop * qobs * list item)) : bool := qrun pq_init h.
+Definition check_pq_exact (h : list (qop * qobs * list item)) : bool := qrun pq_init h.
+
+(* The checker the correspondence uses: only what the property states. The state is the list of pending items
+   (pushed through the GENERATED pq_push); a pop / front may hand out ANY pending item that no pending item is
+   smaller than (generated comparator) - tie-breaking and heap layout are free -; QIndexError stands for "no item
+   handed out" (an exception of any class, or None), accepted exactly when nothing is pending; emptiness through the
+   generated pq_empty. The third component (the queue's `data`) is ignored: the property does not constrain it. *)
+Fixpoint remove_item (it : item) (d : list item) : list item :=
+  match d with
+  | [] => []
+  | y :: t => if item_eqb it y then t else y :: remove_item it t
+  end.
+
+Definition is_min_pending (it : item) (d : list item) : bool :=
+  existsb (item_eqb it) d && forallb (fun y => negb (item_lt y it)) d.
+
+Definition qstep_free (d : list item) (o : qop) (w : qobs) : list item * bool :=
+  match o with
+  | Push x p => (pq_push d x p, match w with QNone => true | _ => false end)
+  | Pop =>
+      match w with
+      | QItem x p => (remove_item (p, x) d, is_min_pending (p, x) d)
+      | QIndexError => (d, pq_empty d)
+      | _ => (d, false)
+      end
+  | Empty => (d, match w with QBool b => Bool.eqb b (pq_empty d) | _ => false end)
+  | Front =>
+      match w with
+      | QItem x p => (d, is_min_pending (p, x) d)
+      | QIndexError => (d, pq_empty d)
+      | _ => (d, false)
+      end
+  end.
+
+Fixpoint qrun_free (d : list item) (h : list (qop * qobs * list item)) : bool :=
+  match h with
+  | [] => true
+  | (o, w, _) :: t => let '(d', b) := qstep_free d o w in b && qrun_free d' t
+  end.
+
+Definition check_pq (h : list (qop * qobs * list item)) : bool := qrun_free pq_init h.
